@@ -623,7 +623,8 @@ Lemma hdr_final_parse o tmpl skeys pkeys n S P :
   let sn := flat_map enc_field skeys ++ zeros (200 - 20 * zlen skeys) in
   zlen (hdr_final o tmpl pn sn n S P) = 1000 /\
   trk_parse_header o (hdr_final o tmpl pn sn n S P)
-  = Ok (mkInfo false n S P (slices_of skeys 0) (slices_of pkeys 0)).
+  = Ok (mkInfo false n S P (slices_of skeys 0) (slices_of pkeys 0)) /\
+  get_at (o_hsize o) 4 (hdr_final o tmpl pn sn n S P) = enc_s false 4 1000.
 Proof.
   intros H Lt Ths Tv Hsk Hpk Nds Ndp Lsk Lpk ES EP HS HP Hn pn sn.
   offs_facts o H.
@@ -665,6 +666,7 @@ Proof.
   { unfold h5. gso o H 7%nat 6%nat. unfold h4. gso o H 7%nat 4%nat. unfold h3. gso o H 7%nat 10%nat.
     unfold h2. gso o H 7%nat 5%nat.
     unfold h1. rewrite <- Lpn at 1. apply get_set_same; lia. }
+  split; [|exact G_hs].
   unfold trk_parse_header. rewrite G_hs, G_v, G_np, G_ns, G_c, G_sn, G_pn.
   change trk_header_size with 1000.
   assert (D4 : forall x, 0 <= x < 2 ^ 31 -> dec_s false (enc_s false 4 x) = x).
@@ -745,7 +747,7 @@ Proof.
   assert (Hsl0 : 0 < zlen sl).
   { destruct sl; [congruence|]. rewrite zlen_cons. pose proof (zlen_nonneg sl). lia. }
   destruct (hdr_final_parse o (trk_template o u) skeys pkeys (zlen sl) (widths skeys) (widths pkeys)
-              H Lt Ths Tv Hsk Hpk Nds Ndp Lsk Lpk eq_refl eq_refl ltac:(lia) ltac:(lia) ltac:(lia)) as (L5 & Pr).
+              H Lt Ths Tv Hsk Hpk Nds Ndp Lsk Lpk eq_refl eq_refl ltac:(lia) ltac:(lia) ltac:(lia)) as (L5 & Pr & _).
   cbv zeta in L5, Pr.
   set (hf := hdr_final _ _ _ _ _ _ _) in *.
   unfold trk_load. rewrite !takez_eq, !dropz_eq. change trk_header_size with 1000.
